@@ -108,13 +108,19 @@ def check_pair(case, sub="pairs"):
     g1, g2 = rg.to_nx(n, m1), rg.to_nx(n, m2)
     if ans:
         # the local-complementation sequence transforms the first graph into the second
-        seq = guarded(sub, icls, lc.lc_graph_operations, a1.copy(), sol)
+        # the caller's arrays (platform int dtype, as adjacency matrices usually are) are handed over directly and used again below
+        x1, x2 = a1.astype(int).copy(), a2.astype(int).copy()
+        seq = guarded(sub, icls, lc.lc_graph_operations, x1, sol)
+        if not np.array_equal(x1, a1):
+            raise Violation(sub, "argument-mutated", "lc_graph_operations", icls, "the adjacency matrix passed in was overwritten")
         m = m1
         for v in seq:
             m = rg.local_complement(n, m, int(v))
         if m != m2:
             raise Violation(sub, "lc-sequence", "lc_graph_operations", icls, "sequence %s turns G1 into mask %d, not G2" % (list(seq), m))
-        seq2 = guarded(sub, icls, lc.find_lc_operations, a1.copy(), a2.copy())
+        seq2 = guarded(sub, icls, lc.find_lc_operations, x1, x2)
+        if not (np.array_equal(x1, a1) and np.array_equal(x2, a2)):
+            raise Violation(sub, "argument-mutated", "find_lc_operations", icls, "an adjacency matrix passed in was overwritten")
         m = m1
         for v in seq2:
             m = rg.local_complement(n, m, int(v))
